@@ -260,8 +260,12 @@ class FnTaint:
                 lb = None
                 if on_true:
                     lb = {"Gt": c + 1, "Ge": c, "Eq": c}.get(opn)
+                    if opn == "Ne" and c == 0:
+                        lb = 1                      # an unsigned value that is not 0 is at least 1
                 elif on_false:
                     lb = {"Lt": c, "Le": c + 1}.get(opn)
+                    if opn == "Eq" and c == 0:
+                        lb = 1
                 if lb is not None:
                     best = lb if best is None else max(best, lb)
         return best
